@@ -31,8 +31,10 @@ man = {
     'hooks': {'guard': 'CELLO_VERIF', 'enable': 'none: the analysis needs no source hooks; all modelling lives in /verif',
               'baseline_off_cmd': 'make -C /repo check', 'source_commits': [], 'add_only': True},
     'engines': [{'name': 'cv', 'path': 'cv/', 'serves_properties': sorted(M.CHECKS),
-                 'kind_free_text': 'repository-specific static analyser: clang JSON AST -> IR -> CFG, dominance/cut queries, '
-                                   'bounded path enumeration, type-class slot tables, code-derived summaries'}],
+                 'kind_free_text': 'repository-specific static analyser: clang JSON AST -> IR -> CFG; dominance / cut queries, bounded path '
+                                   'enumeration, type-class slot tables, code-derived summaries; an exact-C integer evaluator (cv/cint.py) that '
+                                   'interprets the IR of library functions on small abstract instances (absmodel, seqmodel, tablemodel, gcmodel, '
+                                   'printmodel, evals) against the stated meaning; a shape analysis for the red-black tree (rbshape)'}],
     'checks': checks,
     'notes': M.NOTES,
     'not_applicable': na,
